@@ -163,37 +163,86 @@ Qed.
 Lemma resize_widths_unfold : forall w cols maxw,
   resize_widths w cols maxw =
   if Nat.leb (sum_widths w) maxw then w
-  else fold_left put_kv (resize_loop cols w O (length w) maxw) [].
+  else fold_left put_kv (resize_loop cols w O (length cols) maxw) [].
 Proof. reflexivity. Qed.
 
 (** resize_widths_to_fit: the widths of the table's columns add up to at most the terminal width,
     and no column gets more than it asked for *)
 Theorem resize_fits : forall w cols maxw,
-  NoDup cols -> length cols <= length w ->
+  NoDup cols ->
   sum_widths (resize_widths w cols maxw) <= maxw.
 Proof.
-  intros w cols maxw Hnd _. rewrite resize_widths_unfold.
+  intros w cols maxw Hnd. rewrite resize_widths_unfold.
   destruct (Nat.leb (sum_widths w) maxw) eqn:E.
   - apply Nat.leb_le in E. exact E.
   - rewrite sum_fold_put.
-    + pose proof (resize_loop_sum cols w 0 (length w) maxw) as Hs.
+    + pose proof (resize_loop_sum cols w 0 (length cols) maxw) as Hs.
       unfold sum_widths at 2. cbn [fold_right]. lia.
     + rewrite resize_loop_keys. exact Hnd.
     + intros k _. reflexivity.
 Qed.
 
 Theorem resize_no_growth : forall w cols maxw c n,
-  NoDup cols -> length cols <= length w -> In c cols ->
+  In c cols ->
   get c (resize_widths w cols maxw) = Some n ->
   n <= match get c w with Some m => m | None => 0 end.
 Proof.
-  intros w cols maxw c n _ _ _ Hg. rewrite resize_widths_unfold in Hg.
+  intros w cols maxw c n _ Hg. rewrite resize_widths_unfold in Hg.
   destruct (Nat.leb (sum_widths w) maxw) eqn:E.
   - rewrite Hg. lia.
   - apply fold_put_get in Hg. destruct Hg as [Hin|Hg].
     + eapply resize_loop_bound. exact Hin.
     + cbn [get] in Hg. discriminate.
 Qed.
+
+(** the same loop with the machine arithmetic of the implementation made explicit: [usize]
+    subtraction must not underflow and the divisor must not be zero (a zero divisor makes the share
+    [usize::MAX] and the next subtraction overflow -- the panic repaired by b76788c, where the
+    divisor was the number of KNOWN widths instead of the number of columns).  With the divisor
+    counting the columns still to place, no step can fault, whatever the widths. *)
+Fixpoint resize_loop_chk (cols : list str) (w : widths) (i total remaining : nat) : option widths :=
+  match cols with
+  | [] => Some []
+  | c :: rest =>
+      let width := match get c w with Some n => n | None => O end in
+      if Nat.ltb total i then None                       (* total - i underflows *)
+      else if Nat.eqb (total - i) 0 then None            (* division by zero *)
+      else
+        let maxw := remaining / (total - i) in
+        if Nat.ltb width maxw then
+          if Nat.ltb remaining width then None           (* remaining -= width underflows *)
+          else option_map (cons (c, width)) (resize_loop_chk rest w (S i) total (remaining - width))
+        else
+          if Nat.ltb remaining maxw then None
+          else option_map (cons (c, maxw)) (resize_loop_chk rest w (S i) total (remaining - maxw))
+  end.
+
+Theorem resize_loop_no_fault : forall cols w i remaining,
+  resize_loop_chk cols w i (i + length cols) remaining = Some (resize_loop cols w i (i + length cols) remaining).
+Proof.
+  induction cols as [|c rest IH]; intros w i remaining; [reflexivity|].
+  cbn [resize_loop_chk resize_loop length].
+  replace (i + S (length rest)) with (S i + length rest) by lia.
+  assert (Hlt : Nat.ltb (S i + length rest) i = false) by (apply Nat.ltb_ge; lia).
+  rewrite Hlt.
+  assert (Hd : S i + length rest - i = S (length rest)) by lia. rewrite Hd.
+  cbn [Nat.eqb].
+  set (width := match get c w with Some n => n | None => 0 end).
+  assert (Hq : remaining / S (length rest) <= remaining).
+  { apply Nat.div_le_upper_bound; [lia|]. nia. }
+  destruct (Nat.ltb width (remaining / S (length rest))) eqn:E.
+  - apply Nat.ltb_lt in E.
+    assert (H1 : Nat.ltb remaining width = false) by (apply Nat.ltb_ge; lia). rewrite H1.
+    rewrite (IH w (S i) (remaining - width)). reflexivity.
+  - assert (H1 : Nat.ltb remaining (remaining / S (length rest)) = false) by (apply Nat.ltb_ge; lia). rewrite H1.
+    rewrite (IH w (S i) (remaining - remaining / S (length rest))). reflexivity.
+Qed.
+
+(** ... while the divisor of the old code (the number of known widths) does fault as soon as the
+    table has more columns than distinct names *)
+Example resize_old_divisor_faults :
+  resize_loop_chk [[97%N]; [97%N]] [([97%N], 300)] 0 1 240 = None.
+Proof. reflexivity. Qed.
 
 (** cell j of a row starts at the sum of the widths before it *)
 Theorem row_offsets : forall (cells : list (str * nat)) j,
